@@ -58,6 +58,15 @@ type Gen struct {
 	noFunc   int // >0: no function literals (inside assignment targets)
 	Budget   int // soft cap on emitted tokens (0 = none)
 	PendingDefs []GDef // single global definitions to plant at top level of this chunk
+	knownFuncs  []knownFunc
+}
+
+// knownFunc: a function defined by a statement earlier in the chunk (for calls with a definite arity relation)
+type knownFunc struct {
+	name    string
+	nparams int
+	vararg  bool
+	local   bool
 }
 
 // GDef plans one definition of a global: Style 0 `G = exp`, 1 `function G() end`, 2 inside a local function body.
@@ -423,7 +432,7 @@ func (g *Gen) function(d int) {
 	g.funcbody(false)
 }
 
-func (g *Gen) funcbody(method bool) {
+func (g *Gen) funcbody(method bool) (nparams int, vararg bool) {
 	g.emit("(")
 	g.pushScope()
 	if method {
@@ -468,6 +477,7 @@ func (g *Gen) funcbody(method bool) {
 	g.varargs = g.varargs[:len(g.varargs)-1]
 	g.popScope()
 	g.emit("end")
+	return n, va
 }
 
 // blockBody emits statements into the current scope (caller pushes/pops).
@@ -628,6 +638,23 @@ func (g *Gen) stat() {
 			g.exp(ed)
 		}
 	case k < 11: // call statement
+		if len(g.knownFuncs) > 0 && g.r.Chance(1, 3) {
+			// a call of a function defined earlier in this chunk, with fewer, as many, or more arguments than it has
+			// named parameters
+			kf := g.knownFuncs[g.r.Intn(len(g.knownFuncs))]
+			if !kf.local || g.isVisibleLocal(kf.name) {
+				g.emit(kf.name, "(")
+				na := kf.nparams + g.r.Range(-1, 2)
+				for i := 0; i < na; i++ {
+					if i > 0 {
+						g.emit(",")
+					}
+					g.exp(1)
+				}
+				g.emit(")")
+				break
+			}
+		}
 		g.prefixexp(ed-1, true)
 	case k == 11 && deep:
 		g.emit("do", NL)
@@ -733,9 +760,11 @@ func (g *Gen) stat() {
 	case k == 18 && deep: // function statement
 		g.emit("function")
 		method := false
+		fnName := ""
 		gname := g.r.Pick(g.cfg.GlobalPool)
 		if g.cfg.GlobalFuncs && g.r.Chance(1, 2) && !g.cfg.NoGlobalWrites && !g.neverWrite[gname] && g.consts[gname] == 0 && !g.isVisibleLocal(gname) {
 			g.emit(gname)
+			fnName = gname
 		} else {
 			g.emit(g.someVar())
 			n := g.r.Range(1, 2)
@@ -747,12 +776,16 @@ func (g *Gen) stat() {
 				method = true
 			}
 		}
-		g.funcbody(method)
+		np, va := g.funcbody(method)
+		if !method && fnName != "" {
+			g.knownFuncs = append(g.knownFuncs, knownFunc{fnName, np, va, false})
+		}
 	case k == 19 && deep:
 		nm := g.newLocalName()
 		g.emit("local", "function", nm)
 		g.declare(nm) // visible in its own body
-		g.funcbody(false)
+		np, va := g.funcbody(false)
+		g.knownFuncs = append(g.knownFuncs, knownFunc{nm, np, va, true})
 	case k == 20:
 		if g.loops[len(g.loops)-1] > 0 && g.r.Bool() {
 			// break must be last in practice only for 5.1; 5.2+ allows anywhere
@@ -944,8 +977,13 @@ func Render(r *Rng, toks []string, tv Trivia) string {
 			}
 		}
 		sb.WriteString(sep)
-		// multi-line tokens written with \n get the chosen line ending only in trivia; token text is kept verbatim
-		sb.WriteString(t)
+		// line breaks inside a token (backslash-newline and \z in short strings, long strings, long comments) are
+		// written with the file's line ending in two files out of three, verbatim (LF) otherwise
+		if le != "\n" && strings.Contains(t, "\n") && r.Intn(3) != 0 {
+			sb.WriteString(strings.ReplaceAll(t, "\n", le))
+		} else {
+			sb.WriteString(t)
+		}
 		prevprev = prev
 		prev = t
 		atLineStart = false
